@@ -343,10 +343,10 @@ Section HashP.
       apply Hleast in Hlt. lia.
   Qed.
 
-  Lemma int_log_spec : forall n, 1 <= n -> n <= 2 ^ 63 ->
+  Lemma int_log_spec : forall n, n <= 2 ^ 63 ->
     n <= pow2 (int_log n) /\ (forall d, n <= pow2 d -> (int_log n <= d)%nat).
   Proof.
-    intros n _ Hn. apply int_log_spec_gen.
+    intros n Hn. apply int_log_spec_gen.
     change (2 ^ 63) with (pow2 63) in Hn. pose proof (pow2_mono 63 64 ltac:(lia)). lia.
   Qed.
 
@@ -370,9 +370,22 @@ Section HashP.
     - unfold pf_of. rewrite (unpacked_pd Hp), pow2_0. lia.
   Qed.
 
-  Theorem depth_is_chunk_depth : forall n, 1 <= n -> n <= 2 ^ 63 -> list_depth ek n = chunk_depth n.
+  (* capacity 0 (List<T, U0> / Vector<T, U0>): no chunk, depth 0 on both sides *)
+  Lemma chunk_count_0 : chunk_count 0 = 0.
   Proof.
-    intros n H1 Hn. destruct (int_log_spec n H1 Hn) as [Hub Hleast].
+    unfold chunk_count. destruct (is_packed ek); [|reflexivity].
+    pose proof pf_pos as Hpos. apply N.div_small. lia.
+  Qed.
+  Lemma list_depth_0 : list_depth ek 0 = 0%nat.
+  Proof. unfold list_depth. change (int_log 0) with 0%nat. reflexivity. Qed.
+  Lemma chunk_depth_0 : chunk_depth 0 = 0%nat.
+  Proof. unfold chunk_depth, ceil_log2. rewrite chunk_count_0. reflexivity. Qed.
+
+  Theorem depth_is_chunk_depth : forall n, n <= 2 ^ 63 -> list_depth ek n = chunk_depth n.
+  Proof.
+    intros n Hn. destruct (N.eq_0_gt_0_cases n) as [->|H1].
+    { rewrite list_depth_0, chunk_depth_0. reflexivity. }
+    destruct (int_log_spec n Hn) as [Hub Hleast].
     unfold list_depth, chunk_depth, ceil_log2.
     remember (int_log n) as d eqn:Ed. clear Ed.
     assert (0 < chunk_count n) as Hcpos.
@@ -587,9 +600,9 @@ Section HashP.
   (* ====================================================================== *)
   (* Part B.5 — the root of a collection is the SSZ hash_tree_root *)
   (* ====================================================================== *)
-  Lemma cap_list_depth n : 1 <= n -> n <= 2 ^ 63 -> n <= cap ek (list_depth ek n).
+  Lemma cap_list_depth n : n <= 2 ^ 63 -> n <= cap ek (list_depth ek n).
   Proof.
-    intros H1 Hn. destruct (int_log_spec n H1 Hn) as [Hub _].
+    intros Hn. destruct (int_log_spec n Hn) as [Hub _].
     unfold cap, list_depth.
     pose proof (pow2_mono (int_log n) (int_log n - pd_of ek + pd_of ek) ltac:(lia)). lia.
   Qed.
@@ -604,7 +617,7 @@ Section HashP.
     (* h: a List (hlist h = true) or Vector handle of type capacity n whose backing tree is the
        canonical tree of l, whose length (pending updates included) is that of l *)
     Theorem root_is_ssz : forall (n : N) (h : handle T U) (l : list T) (s : state),
-      1 <= n -> n <= 2 ^ 63 -> lenN l <= n ->
+      n <= 2 ^ 63 -> lenN l <= n ->
       shape (htree h) = canon ek (list_depth ek n) l ->
       iface_len M h = lenN l ->
       idf [htree h] -> mvalid ek H s (htree h) ->
@@ -613,14 +626,14 @@ Section HashP.
                       changes s s' (htree h) /\ mvalid ek H s' (htree h) /\
                       (has_memo (htree h) = true -> mget s' (idof (htree h)) = hash_spec ek H (htree h))) s.
     Proof.
-      intros n h l s H1 Hn Hl Hs Hlen IDF V.
-      pose proof (cap_list_depth n H1 Hn) as Hcap.
+      intros n h l s Hn Hl Hs Hlen IDF V.
+      pose proof (cap_list_depth n Hn) as Hcap.
       assert (lenN l <= cap ek (list_depth ek n)) as Hlc by lia.
       unfold coll_tree_hash_root. apply wp_bind.
       eapply wp_mono; [|apply (tree_hash_exact (htree h) s IDF V)].
       - intros [a|e|c] s' (Ea & Ch & V' & M'); try discriminate. injection Ea as ->.
         assert (hash_spec ek H (htree h) = merkleize (chunk_depth n) (chunks l)) as Hroot.
-        { unfold hash_spec. rewrite Hs, (shash_canon_merkle _ _ Hlc), (depth_is_chunk_depth n H1 Hn). reflexivity. }
+        { unfold hash_spec. rewrite Hs, (shash_canon_merkle _ _ Hlc), (depth_is_chunk_depth n Hn). reflexivity. }
         cbn [lift]. unfold ssz_root. destruct (hlist h); cbn [wp].
         + split; [|auto]. unfold hash_tree_root_list. rewrite Hroot, Hlen. reflexivity.
         + split; [|auto]. unfold hash_tree_root_vector. rewrite Hroot. reflexivity.
@@ -630,7 +643,7 @@ Section HashP.
     (* the same from the per-handle invariant of Defs.v, for a handle without pending updates
        (the condition under which System.step hashes, and which the Rust code asserts) *)
     Theorem root_is_ssz_hinv : forall (uinv : U -> Prop) (n : N) (h : handle T U) (l : list T) (s : state),
-      umap_lawful ek M uinv -> 1 <= n -> n <= 2 ^ 63 ->
+      umap_lawful ek M uinv -> n <= 2 ^ 63 ->
       hinv ek M n uinv h l -> has_pending M h = false ->
       idf [htree h] -> mvalid ek H s (htree h) ->
       wp Rexact (coll_tree_hash_root ek M H h)
@@ -638,7 +651,7 @@ Section HashP.
                       changes s s' (htree h) /\ mvalid ek H s' (htree h) /\
                       (has_memo (htree h) = true -> mget s' (idof (htree h)) = hash_spec ek H (htree h))) s.
     Proof.
-      intros uinv n h l s UL H1 Hn HI HP IDF V.
+      intros uinv n h l s UL Hn HI HP IDF V.
       destruct HI as ((bl & Hs & Hbl & Hag & Hul) & Hd & Hln & _ & _ & Hui).
       assert (forall k, uget M (hupd h) k = None) as Hnone.
       { apply (ul_len_0 ek M uinv UL _ Hui). unfold has_pending, uis_empty in HP.
@@ -656,14 +669,14 @@ Section HashP.
     Qed.
     (* the sequential interpreter (what is extracted and run against the Rust code) returns the SSZ root *)
     Corollary root_is_ssz_run : forall (n : N) (h : handle T U) (l : list T) (s : state),
-      1 <= n -> n <= 2 ^ 63 -> lenN l <= n ->
+      n <= 2 ^ 63 -> lenN l <= n ->
       shape (htree h) = canon ek (list_depth ek n) l ->
       iface_len M h = lenN l ->
       idf [htree h] -> mvalid ek H s (htree h) ->
       fst (run (coll_tree_hash_root ek M H h) s) = Ok (ssz_root (hlist h) n l).
     Proof.
-      intros n h l s H1 Hn Hl Hs Hlen IDF V.
-      pose proof (wp_run _ _ _ (root_is_ssz n h l s H1 Hn Hl Hs Hlen IDF V)) as Hr.
+      intros n h l s Hn Hl Hs Hlen IDF V.
+      pose proof (wp_run _ _ _ (root_is_ssz n h l s Hn Hl Hs Hlen IDF V)) as Hr.
       cbv beta in Hr. tauto.
     Qed.
   End Root.
